@@ -119,7 +119,12 @@ mutual
       | .int k, .num q => q.den = 1 && k.inRangeB q.num
       | .iface, _ => true
       | .map _, .obj [] => true
-      | .slice t, .arr xs => literalOKAll env f t xs
+      | .slice t, .arr xs =>
+          -- elements are printed with %#v of the decoded JSON value: an element that is itself an array is
+          -- printed as `[]interface{}{…}`, which is not a value of a typed inner slice
+          (match t with
+           | .slice _ => xs.isEmpty
+           | _ => literalOKAll env f t xs)
       | .named n, j =>
           (match env.resolve 8 n with
            | some d => (match d.body with
